@@ -13,18 +13,42 @@ static QByteArray refDigest(const QByteArray &method, const QByteArray &uri, con
     QByteArray ha2 = md5(cat({ method, ":", uri })).toHex();
     return md5(cat({ ha1, ":", nonce, ":", nc, ":", cnonce, ":auth:", ha2 })).toHex();
 }
-extern "C" void h_probe_digest()
+static void setupClient(QXmppSaslClientDigestMd5 &c)
+{
+    c.setHost(QStringLiteral("h")); c.setServiceType(QStringLiteral("xmpp")); c.setUsername(QStringLiteral("u"));
+}
+// step 2: "rspauth=" X with arbitrary X (8 bytes): accepted iff X is the RFC 2831 response-auth digest (A2 = ":" digest-uri)
+extern "C" void h_digest_rspauth()
 {
     QXmppSaslDigestMd5::setNonce(vpBytesExact(2));
-    QXmppSaslClientDigestMd5 c(nullptr);
-    c.setHost(QStringLiteral("h")); c.setServiceType(QStringLiteral("xmpp")); c.setUsername(QStringLiteral("u"));
+    QXmppSaslClientDigestMd5 c(nullptr); setupClient(c);
     c.m_step = 2; c.m_secret = vpBytesExact(vp_diglen()); c.m_nonce = vpBytesExact(2);
-    QByteArray X = vpBytesExact(2 * vp_diglen());
+    QByteArray X = vpBytesExact(2 * vp_diglen()); vp_assume(vpNoByte(X, ',') && vpNoByte(X, '"') && vpNoByte(X, '='));
     QByteArray ch("rspauth="); ch.append(X);
+    vp_index_hint_begin(&ch); vp_index_hint('=', 7);
     QByteArray exp = refDigest(QByteArray(), QByteArray("xmpp/h"), c.m_secret, c.m_nonce, c.m_cnonce, c.m_nc);
     auto r = c.QXmppSaslClientDigestMd5::respond(ch);
     vp_assert(r.has_value() == (X == exp), "C06 DIGEST-MD5: final challenge accepted iff rspauth is the expected digest");
-    QMap<QByteArray, QByteArray> m; m[QByteArrayLiteral("k")] = vpBytesExact(2);
-    auto back = QXmppSaslDigestMd5::parseMessage(QXmppSaslDigestMd5::serializeMessage(m));
-    vp_assert(back.contains(QByteArrayLiteral("k")), "C06 probe");
+    vp_assert(c.m_step == (r ? 3 : 2), "C06 DIGEST-MD5: step advances only on a verified rspauth");
+}
+// message grammar: a value survives serializeMessage -> parseMessage (quoting and escaping of separators, quotes, backslashes)
+extern "C" void h_digest_roundtrip()
+{
+    QByteArray v = vpBytesExact(vp_cfg(0));
+#ifdef KF_digestmd5_trailing_backslash
+    vp_assume(v.isEmpty() || v.at(v.size() - 1) != '\\');
+#endif
+    QMap<QByteArray, QByteArray> m; m[QByteArrayLiteral("k")] = v;
+    QByteArray text = QXmppSaslDigestMd5::serializeMessage(m);
+    auto back = QXmppSaslDigestMd5::parseMessage(text);
+    vp_assert(back.contains(QByteArrayLiteral("k")), "C06 DIGEST-MD5 grammar: a serialised directive is found again by the parser");
+    vp_assert(back.value(QByteArrayLiteral("k")) == v, "C06 DIGEST-MD5 grammar: the value survives quoting/escaping and parsing");
+}
+extern "C" void h_digest_parse_probe()
+{
+    QByteArray X("abcdefgh"); if (vp_cfg(0)) { X = vpBytesExact(8); vp_assume(vpNoByte(X, ',') && vpNoByte(X, '"') && vpNoByte(X, '=')); }
+    QByteArray ch("rspauth="); ch.append(X);
+    vp_index_hint_begin(&ch); vp_index_hint('=', 7);
+    auto m = QXmppSaslDigestMd5::parseMessage(ch);
+    vp_assert(m.value(QByteArrayLiteral("rspauth")) == X, "C06 probe parse");
 }
